@@ -141,6 +141,7 @@ pub enum RespBody {
     None,                        // no body and no framing header (204, 304)
     Len(Vec<u8>),                // content-length
     Chunked(Vec<Vec<u8>>, u64),  // transfer-encoding: chunked, one write per chunk, pause in ms between the writes
+    UntilClose(Vec<u8>),         // no framing header: the body ends when the host closes the connection
 }
 
 #[derive(Clone, Debug)]
@@ -156,6 +157,7 @@ impl MockResp {
             RespBody::None => Vec::new(),
             RespBody::Len(b) => b.clone(),
             RespBody::Chunked(c, _) => c.concat(),
+            RespBody::UntilClose(b) => b.clone(),
         }
     }
 }
@@ -206,7 +208,8 @@ fn vx_default_resp(req: &RecReq) -> MockResp {
     }
 }
 
-fn vx_write_resp(s: &mut std::net::TcpStream, r: &MockResp, head_request: bool) -> std::io::Result<()> {
+/// Ok(false) = the connection has to be closed now (close-delimited body)
+fn vx_write_resp(s: &mut std::net::TcpStream, r: &MockResp, head_request: bool) -> std::io::Result<bool> {
     let mut head = format!("HTTP/1.1 {} {}\r\n", r.status, vx_reason(r.status));
     for (n, v) in r.headers.iter() {
         head.push_str(&format!("{}: {}\r\n", n, v));
@@ -215,6 +218,17 @@ fn vx_write_resp(s: &mut std::net::TcpStream, r: &MockResp, head_request: bool) 
         RespBody::None => {
             head.push_str("\r\n");
             s.write_all(head.as_bytes())?;
+        }
+        RespBody::UntilClose(b) => {
+            head.push_str("\r\n");
+            let mut out = head.into_bytes();
+            if !head_request {
+                out.extend_from_slice(b);
+            }
+            s.write_all(&out)?;
+            s.flush()?;
+            let _ = s.shutdown(std::net::Shutdown::Write);
+            return Ok(false);
         }
         RespBody::Len(b) => {
             head.push_str(&format!("content-length: {}\r\n\r\n", b.len()));
@@ -249,7 +263,8 @@ fn vx_write_resp(s: &mut std::net::TcpStream, r: &MockResp, head_request: bool) 
             }
         }
     }
-    s.flush()
+    s.flush()?;
+    Ok(true)
 }
 
 fn vx_try_request(buf: &[u8]) -> Option<(RecReq, usize)> {
@@ -276,8 +291,9 @@ fn vx_host_conn(mut s: std::net::TcpStream, st: Arc<(StdMutex<HostState>, Condva
                 g.reqs.push(req.clone());
                 g.queue.pop_front().unwrap_or_else(|| vx_default_resp(&req))
             };
-            if vx_write_resp(&mut s, &resp, req.method == "HEAD").is_err() {
-                break 'outer;
+            match vx_write_resp(&mut s, &resp, req.method == "HEAD") {
+                Ok(true) => {}
+                _ => break 'outer,
             }
         }
         match s.read(&mut tmp) {
@@ -609,7 +625,7 @@ impl Harness {
     pub fn connect_only(&self, attr: &Attribution) -> (RawClient, TcpConnectionContext, tokio::net::TcpStream) {
         let s = std::net::TcpStream::connect(self.front_addr).expect("connect to the front listener");
         let _ = s.set_nodelay(true);
-        let _ = s.set_read_timeout(Some(Duration::from_secs(20)));
+        let _ = s.set_read_timeout(Some(Duration::from_secs(10)));
         let (stream, client_addr) = self.rt.block_on(self.front.accept()).expect("accept");
         let id = self.next_id.get();
         self.next_id.set(id + 1);
